@@ -264,6 +264,8 @@ def main():
                 T.append(tm.lift(cat_bytes(V), 256))
             # bound: the first two candidates may be rejected, the third is in range (deeper rejection chains: sampler/* obligations)
             ctx.assume(in_range(T[2]))
+            # unwinding assertion: with T[2] in range the rejection loop runs at most three times; a fourth trip fails the obligation
+            m.unwind = 4
             s, err = m.call(SECEC + 'sampleRandomScalar', [drbg])
             sub.note_machine(m)
             ctx.check(err is None, 'a-nonce-is-found')
